@@ -18,6 +18,10 @@ def coreFlags : List String :=
    "encoded-buffer-aliases-packet", "marshal-not-repeatable", "decoders-mutate-packet",
    "decoder-results-alias-packet", "dump-mutates-packet", "dump-not-repeatable", "input-changed-at-end"]
 
+def encodeFlags : List String :=
+  ["encodedlen-mutates-packet", "marshal-mutates-packet", "encode-mutates-packet", "marshal-not-repeatable",
+   "encode-not-repeatable", "encoded-buffer-aliases-packet"]
+
 def c13 (op : String) (args : List String) (impl : String) : Verdict :=
   match op, args with
   | "purehelper", [desc, attrs, _, _] =>
@@ -49,6 +53,13 @@ def c13 (op : String) (args : List String) (impl : String) : Verdict :=
           | [name, v] => some (s!"not_{name}", v == "0")
           | _ => none)
     | _, _ => bad "purecore-args"
+  | "pureencode", [_, _, _, _, _] =>
+    let model := " ".intercalate (encodeFlags.map (· ++ "=0"))
+    mk impl model
+      ([noCrash impl] ++ (impl.splitOn " ").filterMap fun t =>
+        match t.splitOn "=" with
+        | [name, v] => some (s!"not_{name}", v == "0")
+        | _ => none)
   | _, _ => bad s!"op:{op}"
 
 def c02 (op : String) (args : List String) (impl : String) : Verdict :=
